@@ -6,7 +6,7 @@ from collections import Counter
 from . import core, gen
 from . import querycheck as qc
 
-SIZES = {"quick": 80, "thorough": 2500}
+SIZES = {"quick": 200, "thorough": 3000}
 
 RULE = ("proof: of the reference semantics (Props/C14.lean) — the multiset of solutions is invariant under any re-partition of "
         "the scanned triples over graphs, a consistent (injective) renaming of bindings renames columns and nothing else, "
